@@ -65,6 +65,13 @@ def texts(tier):
     # text before the first record, empty stream
     for pre in ("", "\n", "; leading comment\n", "garbage line\n", "  \n"):
         yield "PRE", pre + "$PROBLEM x\n$INPUT ID DV\n"
+    # white space in front of the $ of a record name (legal; it belongs to the text that must be reproduced)
+    for kind, (names, toks) in RECORD_TOKENS.items():
+        for name in names[:2]:
+            for ind in ("  ", "\t", " "):
+                for tok in toks[:3]:
+                    yield kind, "$PROBLEM x\n" + ind + name + " " + tok + "\n$INPUT ID DV\n"
+                    yield kind, ind + name + " " + tok + "\n"
 
 
 BASE = [
@@ -115,6 +122,8 @@ COMBOS = [
 ]
 
 
+INDENTED = [{"THETA": "  $THETA (0,0.005) ; TVCL\n"}, {"OMEGA": "\t$OMEGA 0.03\n"}, {"ESTIMATION": " $ESTIMATION METHOD=1 INTERACTION\n"},
+            {"ERROR": "  $ERROR\nY = F + F*EPS(1)\n"}]
 PRE_RECORDS = ["$SIZES LTH=120 PD=-80\n", "$SIZES PC=35 LVR=40\n", "$SIZES DIMNEW=-10000\n", "$SIZES LTH=50 ; more thetas\n",
                "$SIZES PD=-80\n$SIZES LTH=120 LVR=40\n"]
 
@@ -133,6 +142,9 @@ def streams(tier):
                 yield "+".join(f"{k}{sub[k]}" for k in combo), txt
     for pre in ("; header comment\n", "\n\n", "Some free text\n"):
         yield "pre", pre + "".join(t for _, t in BASE)
+    # indented record names
+    for i, sub in enumerate(INDENTED):
+        yield f"indent{i}", "".join(sub.get(k, t) for k, t in BASE)
     # records in front of $PROBLEM (they belong to no problem)
     for i, pre in enumerate(PRE_RECORDS):
         yield f"prerec{i}", pre + "".join(t for _, t in BASE)
@@ -223,6 +235,7 @@ def corpus():
         out[f"prerec{i}"] = ("text", PRE_RECORDS[i] + "".join(tt for _, tt in BASE))
     for nm, sub in CODE_MODELS.items():
         out[nm] = ("text", "".join(sub.get(k, tt) for k, tt in BASE))
+    out["indent"] = ("text", "".join({**INDENTED[0], **INDENTED[1], **INDENTED[3]}.get(k, tt) for k, tt in BASE))
     return out
 
 
